@@ -49,7 +49,12 @@ pub enum EncodeError<FormatError> {
 pub fn parse_multiformat_bytes(
     data: &[u8],
 ) -> Result<(SerializationCodec, &[u8]), varint_decode::Error> {
-    varint_decode::u32(data)
+    // varint_decode::u32 silently drops the bits of the fifth byte that do not fit into u32,
+    // so a tag of another (too big) codec would be read as a valid one; decode a wider value
+    // and check the range explicitly
+    let (codec, rest) = varint_decode::u64(data)?;
+    let codec = SerializationCodec::try_from(codec).map_err(|_| varint_decode::Error::Overflow)?;
+    Ok((codec, rest))
 }
 
 pub fn encode_multiformat<Value, Fmt: Format<Value>>(
